@@ -2,7 +2,7 @@
     followed by [Print Assumptions].  ECDSA, the digests, the DER parser and the protobuf
     codec are universally quantified functions; where a theorem needs something of them it is
     a premise that the instances of [Proofs.Toy] satisfy. *)
-From Sci Require Import Signed.Model Signed.Spec Signed.Proofs Signed.PathProofs.
+From Sci Require Import Signed.Model Signed.Spec Signed.Proofs Signed.PathProofs Signed.Framing.
 Local Open Scope N_scope.
 
 (** [SignedMessage::validate] succeeds exactly when the header-and-body framing and the header
@@ -259,3 +259,64 @@ Print Assumptions from_rpc_total.
 (** the panic site is real: the model's slice panics on a short MAC when the guard is absent *)
 Example slice_site_is_real : @slice_to rerr [1; 2; 3] 6 1 = Panic 1.
 Proof. reflexivity. Qed.
+
+(** Reordering, dropping or inserting preceding entries (or changing the header_and_body, or
+    the info) changes the signed input, with the framing of the real encoding modelled: the
+    header_and_body of every entry is an encoder output [enc_hb header body] and the encoder is
+    prefix-free (protobuf: two non-empty length-delimited fields), every signature is a blob of
+    a prefix-free set (DER SEQUENCE).  Equal signed inputs then have the same header_and_body,
+    the same info and the same (header_and_body, signature) pairs of preceding entries IN THE
+    SAME ORDER AND NUMBER -- no premise on the lengths of the entries.  The two prefix-freeness
+    premises are properties of protobuf length-delimited encoding and of DER (trusted base);
+    [Framing.LenPrefixed] satisfies them. *)
+Theorem reorder_changes_digest_input :
+  forall (enc_hb : bytes -> bytes -> bytes) (is_sig : bytes -> Prop),
+    (forall h b h' b' t, enc_hb h' b' = enc_hb h b ++ t -> t = []) ->
+    (forall s t, is_sig s -> is_sig (s ++ t) -> t = []) -> (forall s, is_sig s -> s <> []) ->
+    forall sg sg' i i' e e',
+      Forall (entry_framed enc_hb is_sig) (sg_entries sg) ->
+      Forall (entry_framed enc_hb is_sig) (sg_entries sg') ->
+      IsHB enc_hb (s_hb (se_signed e)) -> IsHB enc_hb (s_hb (se_signed e')) ->
+      length (si_enc (sg_info sg)) = length (si_enc (sg_info sg')) ->
+      s_hb (se_signed e) ++ assoc_at sg i = s_hb (se_signed e') ++ assoc_at sg' i' ->
+      s_hb (se_signed e) = s_hb (se_signed e') /\ si_enc (sg_info sg) = si_enc (sg_info sg')
+      /\ map pair_of (firstn i (sg_entries sg)) = map pair_of (firstn i' (sg_entries sg')).
+Proof. intros enc_hb is_sig H1 H2 H3 sg sg' i i' e e'. apply framed_input_injective; assumption. Qed.
+Print Assumptions reorder_changes_digest_input.
+
+(** the usual reading: same entry, same info, a DIFFERENT list of preceding entries (permuted,
+    shortened, extended, one replaced) gives a different signed input *)
+Theorem different_predecessors_different_input :
+  forall (enc_hb : bytes -> bytes -> bytes) (is_sig : bytes -> Prop),
+    (forall h b h' b' t, enc_hb h' b' = enc_hb h b ++ t -> t = []) ->
+    (forall s t, is_sig s -> is_sig (s ++ t) -> t = []) -> (forall s, is_sig s -> s <> []) ->
+    forall info es es' e,
+      Forall (entry_framed enc_hb is_sig) es -> Forall (entry_framed enc_hb is_sig) es' ->
+      IsHB enc_hb (s_hb (se_signed e)) -> map pair_of es <> map pair_of es' ->
+      s_hb (se_signed e) ++ assoc_at (mkSeg info es) (length es)
+      <> s_hb (se_signed e) ++ assoc_at (mkSeg info es') (length es').
+Proof.
+  intros enc_hb is_sig H1 H2 H3 info es es' e F F' He Hne H. apply Hne.
+  destruct (framed_input_injective enc_hb is_sig H1 H2 H3 (mkSeg info es) (mkSeg info es') (length es) (length es') e e
+              F F' He He eq_refl H) as (_ & _ & E).
+  cbn [sg_entries] in E. rewrite !firstn_all in E. exact E.
+Qed.
+Print Assumptions different_predecessors_different_input.
+(** the framing premises are satisfiable, and the theorem applies to a swap of two entries *)
+Example reorder_instance :
+  let hb := fun k => LenPrefixed.enc_hb [k] [k; k] in
+  let e := fun k => mkSE (mkAE k 0 0 (mkHE 0 (mkHF 0 0 0 [])) [] [] []) (mkSigned (hb k) [1; k]) in
+  let info := mkSI 0 0 [8; 5] in
+  hb 3 ++ assoc_at (mkSeg info [e 1; e 2]) 2 <> hb 3 ++ assoc_at (mkSeg info [e 2; e 1]) 2.
+Proof.
+  intros hb e info.
+  assert (forall k, entry_framed LenPrefixed.enc_hb LenPrefixed.is_sig (e k)) as Fe
+    by (intros k; split; [exists [k], [k; k]; reflexivity|exists [k]; reflexivity]).
+  apply (different_predecessors_different_input LenPrefixed.enc_hb LenPrefixed.is_sig
+           LenPrefixed.hb_prefix_free LenPrefixed.sig_prefix_free LenPrefixed.sig_nonempty
+           info [e 1; e 2] [e 2; e 1] (e 3)).
+  - constructor; [apply Fe|constructor; [apply Fe|constructor]].
+  - constructor; [apply Fe|constructor; [apply Fe|constructor]].
+  - exact (proj1 (Fe 3)).
+  - cbv. congruence.
+Qed.
